@@ -19,7 +19,7 @@ ALLOWED_AXIOMS = set()  # the development is closed under the global context; ex
 TRUSTED_BASE = [
     "Coq 8.16.1 kernel (coqc; vm_compute used for consts_wf, finite sweeps, refutation witnesses and model evaluation; no native_compute)",
     "axioms: none expected (Print Assumptions under every property theorem is compared with 'Closed under the global context')",
-    "translator harness/gen_consts.py (literals of /repo -> coq/gen/Consts_here.v, fail-closed)",
+    "translators harness/gen_consts.py (literals of /repo -> coq/gen/Consts_here.v) and harness/gen_exprs.py (decision expressions -> coq/gen/Exprs_here.v), both fail-closed",
     "correspondence harness (harness/*.py): generators, adapters calling the implementation, Coq term printer and output parser, canonicalisation",
     "model evaluated inside Coq by Eval vm_compute on generated cases files (no extraction)",
     "modelled rather than verified: the Python code itself; the theorems are about the Gallina model tied to /repo by translator + correspondence",
@@ -214,10 +214,15 @@ class Build:
 
 
 def regenerate():
-    """re-run the translator; returns (ok, message)"""
-    rc, out = _sh([sys.executable, os.path.join(VERIF, "harness", "gen_consts.py"), os.path.join(COQ, "gen", "Consts_here.v")],
-                  env=dict(os.environ, ALDY_REPO=REPO))
-    return rc == 0, out.strip()
+    """re-run the translators (literals, decision expressions); returns (ok, message)"""
+    msgs, ok = [], True
+    for script, target in (("gen_consts.py", "Consts_here.v"), ("gen_exprs.py", "Exprs_here.v")):
+        rc, out = _sh([sys.executable, os.path.join(VERIF, "harness", script), os.path.join(COQ, "gen", target)],
+                      env=dict(os.environ, ALDY_REPO=REPO))
+        ok = ok and rc == 0
+        if rc != 0:
+            msgs.append(f"{script}: {out.strip()[-700:]}")
+    return ok, "; ".join(msgs)
 
 
 def closure(prop_file):
@@ -237,7 +242,7 @@ def build(prop, extra_targets=(), thorough=False):
     try:
         ok, msg = regenerate()
         if not ok:
-            b.broken.append(("translator:gen_consts", msg[-1500:]))
+            b.broken.append(("translator", msg[-1500:]))
             # keep going with the stale gen file if there is one: the search for a failing input still needs the model
         changed = write_coqproject()
         if changed or not os.path.exists(os.path.join(COQ, "Makefile")):
